@@ -264,9 +264,14 @@ func (x *Unit) libCall(st *State, pc *preparedCall, name string, n int) ([]Val, 
 	case "(*sync.Once).Do":
 		return x.onceDo(st, pc), true
 	case "(*sync.Pool).Get":
-		x.note("sync.Pool.Get returns an arbitrary value")
-		return []Val{x.freshVal(st, "pooled", rt(0))}, true
+		x.note("sync.Pool.Get returns an arbitrary value of the pool's element type (pooltype); its contents are unconstrained")
+		// a pooled object belongs to nobody else: it is as good as freshly allocated
+		r := x.alloc(st)
+		v := Val{MkIface(x.uf("pooltype", SInt, recv.T), r), rt(0)}
+		x.assume(st, Cmp(">", IfaceTyp(v.T), IntLit(0)))
+		return []Val{v}, true
 	case "(*sync.Pool).Put":
+		x.oblige(st, "pool", x.srcOf(pc.call)+":element-type", Eq(IfaceTyp(args[0].T), x.uf("pooltype", SInt, recv.T)), pc.call)
 		return nil, true
 	// ----- errors
 	case "errors.New", "github.com/pkg/errors.New", "github.com/pkg/errors.Errorf", "fmt.Errorf", "golang.org/x/xerrors.Errorf", "golang.org/x/xerrors.New":
